@@ -382,3 +382,132 @@ def check(run, prog, tier):
                    "the decrement of `%s` at line %s is reachable (path %s) without a new comparison with the buffer start: a run of deletable bytes walks the cursor below the buffer" % (cname, bad[0], (bad[1] or [])[:8]),
                    f.file, sites[0][2].get("l"), f.name, what="%s moves its output cursor `%s` backwards without re-checking the start of the buffer each time" % (f.name, cname))
     run.need(nf >= 1, "cursor-decrementing editors (found %d)" % nf)
+
+    # ---- C13-g after-IAC states are left by the byte that completes the sequence
+    run.rule("C13-g", "copy_chars: the telnet states that stand for 'the next byte completes this command' (after IAC; after IAC DO/DONT/WILL/WONT) assign ip->state on every path through their case, and in the state 'IAC seen inside a sub-negotiation' every branch taken for a specific byte value does; otherwise the following data byte is consumed as part of the command", 6)
+    sw_blocks = [bid for bid in sorted(cc.reachable()) if (cc.blocks[bid].term or {}).get("k") == "SwitchStmt"]
+    outer = None
+    for bid in sw_blocks:
+        t = cc.blocks[bid].term
+        cond = t.get("cond") or (cc.blocks[bid].el[-1] if cc.blocks[bid].el else None)
+        if cond is not None and any(x.get("k") == "Mem" and x.get("f") == "state" for x in walk(cond)):
+            outer = bid
+            break
+    run.need(outer is not None, "switch over ip->state in copy_chars")
+    state_store = {b.id for b, i, n in cc.nodes() if n.get("k") == "Asg" and n.get("op") == "=" and strip(n["L"]).get("k") == "Mem" and strip(n["L"]).get("f") == "state"}
+    cases = {}
+    for sx in cc.blocks[outer].succ:
+        if sx is None:
+            continue
+        lab = cc.blocks[sx].label
+        if lab and lab.get("k") == "case":
+            cases[lab.get("src") or str(lab.get("lo"))] = sx
+    run.need(len(cases) >= 6, "cases of the telnet state switch (found %d)" % len(cases))
+    STEADY = {"TS_DATA": "ordinary data", "TS_SB": "collecting a sub-negotiation"}
+    ESCAPE_IN_SB = "TS_SB_IAC"
+    ng = 0
+    for name, start in sorted(cases.items()):
+        if name in STEADY:
+            continue
+        starts = [(start, "any byte")]
+        if name == ESCAPE_IN_SB:
+            starts = []
+            inside = cfgq.reach_set(cc, [start], avoid_blocks=[outer])
+            for bid in sorted(inside):
+                c = cc.branch_cond(bid)
+                if c is None:
+                    continue
+                op, l, r = atom_of(c, True)
+                if op == "==" and r is not None and const_val(r) is not None and "from" in show(l):
+                    starts.append((cc.blocks[bid].succ[0], "byte %s" % show(strip(r))))
+            run.need(starts, "byte tests in the TS_SB_IAC case")
+        for st, what in starts:
+            ng += 1
+            p = cc.reach_avoiding([st], lambda blk, t=outer: blk.id == t, avoid_blocks=state_store) if st not in state_store else None
+            run.ob("C13-g", "leaves:%s:%s" % (name, what), p is None, "every path through %s (%s) assigns ip->state before the next byte is looked at" % (name, what) if p is None else
+                   "in state %s (%s) path %s returns to the state switch without assigning ip->state: the next byte of the stream is taken as part of the telnet command and disappears from the input" % (name, what, p[:8]),
+                   cc.file, cc.blocks[st].el[0].get("l") if cc.blocks[st].el else cc.line, "copy_chars", what="telnet state %s is not left after the byte that completes the command (%s)" % (name, what))
+    run.need(ng >= 6, "after-IAC state instances (found %d)" % ng)
+
+    # ---- C13-h a data byte that is not a control byte is stored
+    run.rule("C13-h", "copy_chars, data state: the default branch (a byte that is neither IAC nor CR) stores a byte through the output cursor on every path; a path without a store makes a typed character vanish", 1)
+    data_case = cases.get("TS_DATA")
+    run.need(data_case is not None, "case TS_DATA")
+    inner = None
+    for bid in sorted(cfgq.reach_set(cc, [data_case], avoid_blocks=[outer])):
+        if (cc.blocks[bid].term or {}).get("k") == "SwitchStmt":
+            inner = bid
+            break
+    run.need(inner is not None, "switch over the byte in the data state")
+    dflt = [sx for sx in cc.blocks[inner].succ if sx is not None and (cc.blocks[sx].label or {}).get("k") == "default"]
+    run.need(dflt, "default branch of the data-state switch")
+    to_stores = {b.id for b, i, n in cc.nodes() if n.get("k") == "Asg" and n.get("op") == "=" and strip(n["L"]).get("k") == "Un" and strip(n["L"]).get("op") == "*"
+                 and any(x.get("k") == "Ref" and x.get("d") == "param" and x.get("n") == "to" for x in walk(n["L"]))}
+    run.need(to_stores, "stores through `to`")
+    p = cc.reach_avoiding([dflt[0]], lambda blk, t=outer: blk.id == t, avoid_blocks=to_stores) if dflt[0] not in to_stores else None
+    run.ob("C13-h", "data-byte-stored", p is None, "every path of the default branch stores through `to`" if p is None else
+           "path %s through the default branch of the data state stores nothing: the byte is dropped from the command line" % p[:8], cc.file, cc.blocks[dflt[0]].el[0].get("l") if cc.blocks[dflt[0]].el else cc.line, "copy_chars",
+           what="a plain data byte can be dropped by the telnet state machine (e.g. the byte after a lone CR)")
+
+    # ---- C13-i fixed-offset reads of the sub-negotiation buffer see initialised bytes
+    run.rule("C13-i", "copy_chars: a read of ip->sb_buf at a constant offset is dominated by a clear of the unused tail of the buffer (memset from sb_buf + sb_pos) or by a test that sb_pos is beyond that offset: a short sub-negotiation must not expose bytes of an earlier one", 3)
+    clears = [(b, i) for b, i, n in cc.calls("memset") if any(x.get("k") == "Mem" and x.get("f") == "sb_buf" for x in walk(n["args"][0])) and any(x.get("k") == "Mem" and x.get("f") == "sb_pos" for x in walk(n["args"][0]))]
+    nr = 0
+    seen_off = set()
+    for b, i, n in cc.nodes():
+        if n.get("k") != "Sub" or const_val(n.get("i")) is None:
+            continue
+        if not (strip(n["b"]).get("k") == "Mem" and strip(n["b"]).get("f") == "sb_buf"):
+            continue
+        # stores are not reads
+        if any(m.get("k") == "Asg" and m.get("op") == "=" and strip(m["L"]) is n for e in b.el for m in walk(e, True)):
+            continue
+        k = const_val(n["i"])
+        nr += 1
+        cleared = any(cc.point_dominates((cb.id, ci), (b.id, i)) for cb, ci in clears)
+        tested = False
+        for c, truth, B in cfgq.guards(cc, b.id):
+            from stale import implied_atoms as _ia
+            for a, tr in _ia(c, truth):
+                op, l, r = atom_of(a, tr)
+                if r is not None and const_val(r) is not None and strip(l).get("k") == "Mem" and strip(l).get("f") == "sb_pos" and ((op == ">" and const_val(r) >= k) or (op == ">=" and const_val(r) > k)):
+                    tested = True
+        key = (k, n.get("l"))
+        if key in seen_off:
+            continue
+        seen_off.add(key)
+        run.ob("C13-i", "sb-read:%d@%d" % (k, len([x for x in seen_off if x[0] == k])), cleared or tested, "sb_buf[%d] at line %s is read after the tail was cleared" % (k, n.get("l")) if cleared else ("sb_pos tested" if tested else
+               "sb_buf[%d] is read at line %s without the unused tail having been cleared and without a test of sb_pos: after a shorter sub-negotiation it still holds bytes of an earlier one (or heap garbage)" % (k, n.get("l"))),
+               cc.file, n.get("l"), "copy_chars", what="telnet sub-negotiation handlers read bytes the client did not send")
+    run.need(nr >= 3, "constant-offset reads of sb_buf (found %d)" % nr)
+
+    # ---- C13-j the over-long-line discard looks at pending commands first
+    run.rule("C13-j", "get_user_data: the stores that throw the input buffer away (text_start = text_end = 0 under 'no room left') are reached only through a test that calls cmd_in_buf(), except when the new bytes were already taken off the socket (completion buffer present): a buffer that is full of complete commands is not an over-long line", 1)
+    nd = 0
+    for b, i, n in gud.nodes():
+        if n.get("k") == "Asg" and n.get("op") == "=" and strip(n["L"]).get("k") == "Mem" and strip(n["L"]).get("f") == "text_end" and const_val(n["R"]) == 0:
+            # only the discard under a space test (not connection set-up)
+            sized = [B for c, t, B in cfgq.guards(gud, b.id) if any(x.get("k") == "Ref" and x.get("n") == "text_space" for x in walk(c))]
+            if not sized:
+                continue
+            nd += 1
+            looks = {bid for bid in gud.reachable() if gud.branch_cond(bid) is not None and any(x.get("k") == "Call" and x.get("fn") == "cmd_in_buf" for x in walk(gud.branch_cond(bid)))}
+            # bytes that were already taken off the socket (completion buffer of an asynchronous read) cannot be
+            # left there: on the edge `evt->buffer != NULL` the discard is the only option, whatever is pending
+            taken = set()
+            for bid in gud.reachable():
+                c = gud.branch_cond(bid)
+                if c is None or not gud.dominates(sized[0], bid):
+                    continue
+                from stale import implied_atoms as _ia
+                for truth, idx in ((True, 0), (False, 1)):
+                    for a, tr in _ia(c, truth):
+                        e0, t0 = normalize_cond(a, tr)
+                        e0 = strip(e0)
+                        if t0 and e0.get("k") == "Mem" and e0.get("f") == "buffer":
+                            taken.add((bid, gud.blocks[bid].succ[idx]))
+            p = gud.reach_avoiding([gud.entry], lambda blk, t=b.id: blk.id == t, avoid_blocks=looks, avoid_edges=taken)
+            run.ob("C13-j", "discard:%s" % show(n)[:30], p is None, "the discard at line %s is reached only after a test of cmd_in_buf(ip)" % n.get("l") if p is None else
+                   "path %s reaches the discard at line %s without asking cmd_in_buf(): pasted short lines that fill the buffer are thrown away although each is a complete command" % (p[:8], n.get("l")), gud.file, n.get("l"), "get_user_data",
+                   what="get_user_data discards buffered complete commands as if they were one over-long line")
+    run.need(nd >= 1, "discard of the input buffer (found %d)" % nd)
